@@ -57,7 +57,7 @@ class C18(Machine):
             nsp = rng.randint(2, 6)
             st = {"sim": sim, "seed": rng.getrandbits(48), "adversarial": rng.choice([0.0, 0.0, 0.02, 0.1]),
                   "ntips": rng.choice([2, 2, 3, 4, 5, 8, 13, 21, 40]), "birth": birth, "death": death,
-                  "with_namespace": rng.random() < 0.5, "pop_size": rng.choice([None, 1, 1, 0.5, 10, 1000]),
+                  "with_namespace": rng.random() < 0.5, "ns_fill": rng.randrange(6), "pop_size": rng.choice([None, 1, 1, 0.5, 10, 1000]),
                   "nspecies": nsp, "genes": [rng.randint(1, 5) for _ in range(nsp)],
                   "species_tree": gen.ultrametric_spec(rng, ["S%d" % i for i in range(nsp)]),
                   "edge_pop": rng.random() < 0.5, "junk": rng.choice([0, 0, 7, 101, 1000, 4096]),
@@ -73,7 +73,9 @@ class C18(Machine):
         if sim in ("birth_death", "fast_birth_death", "treesim_birth_death"):
             kw = {"num_extant_tips": n, "rng": rng}
             if st["with_namespace"]:
-                kw["taxon_namespace"] = dendropy.TaxonNamespace(["T%d" % (i + 1) for i in range(n)])
+                # supplied namespace: empty, smaller than, equal to or larger than the number of tips
+                k = {0: 0, 1: max(1, n // 2), 2: n - 1, 3: n, 4: n, 5: n + 2}[st.get("ns_fill", 3)]
+                kw["taxon_namespace"] = dendropy.TaxonNamespace(["T%d" % (i + 1) for i in range(k)])
             if sim == "birth_death":
                 return "bd", birthdeath.birth_death_tree(st["birth"], st["death"], birth_rate_sd=st["sd"], death_rate_sd=st["sd"], **kw), n
             if sim == "treesim_birth_death":
@@ -337,7 +339,7 @@ def hash_str(s):
 
 
 def _params(st):
-    return dict((k, st[k]) for k in ("seed", "adversarial", "ntips", "birth", "death", "pop_size", "genes", "with_namespace", "sd", "period"))
+    return dict((k, st[k]) for k in ("seed", "adversarial", "ntips", "birth", "death", "pop_size", "genes", "with_namespace", "ns_fill", "sd", "period") if k in st)
 
 
 def make(name):
